@@ -164,7 +164,33 @@ def _run(prog, env, payloads, m=3):
             if not under[k] and now[k] - prev[k] > 1:
                 problems.append(("leaf-iterated-twice-in-one-pass", {"leaf": k, "iteration": i + 1, "starts": now[k] - prev[k]}))
         prev = now
+    # a later execute() of the same relation: inputs of materializations are never consumed again
+    from lsst.daf.relation import Materialization
+    mat_leaves = _under_materialization(rel)
+    if mat_leaves:
+        it2 = rel.engine.execute(rel)
+        lists.append([dict(r) for r in it2])
+        now = {k: p.starts for k, p in payloads.items()}
+        for k in payloads:
+            if mat_leaves.get(k) and now[k] != prev[k]:
+                problems.append(("materialization-input-consumed-again-on-second-execute", {"leaf": k}))
     return rel, problems, lists
+
+
+def _under_materialization(rel, under=False, acc=None):
+    from lsst.daf.relation import BinaryOperationRelation, LeafRelation, MarkerRelation, Materialization, UnaryOperationRelation
+
+    acc = {} if acc is None else acc
+    if isinstance(rel, LeafRelation):
+        acc[rel.name] = acc.get(rel.name, True) and under if rel.name in acc else under
+    elif isinstance(rel, UnaryOperationRelation):
+        _under_materialization(rel.target, under, acc)
+    elif isinstance(rel, BinaryOperationRelation):
+        _under_materialization(rel.lhs, under, acc)
+        _under_materialization(rel.rhs, under, acc)
+    elif isinstance(rel, MarkerRelation):
+        _under_materialization(rel.target, under or isinstance(rel, Materialization), acc)
+    return acc
 
 
 def _mk_env(shape, valfn, symbolic):
